@@ -560,7 +560,7 @@ fn main() {
 
 pub fn run(o: &Opts) -> i32 {
     let header = "From Coq Require Import List NArith.\nImport ListNotations.\nRequire Import Verif.Base.Cases Verif.Index.Prelude Verif.Index.Cases.\nLocal Open Scope N_scope.\n";
-    let mut w = CaseWriter::new(&o.out, "cases_index", header, "check_case", 40);
+    let mut w = CaseWriter::new(&o.out, "cases_index", header, "check_case", 110);
     let mut st = Stats::default();
     let mut violations: Vec<Viol> = Vec::new();
     let mut distinct: HashSet<Case> = HashSet::new();
@@ -640,8 +640,12 @@ pub fn run(o: &Opts) -> i32 {
         let sizes: &[usize] = if o.thorough { &[0, 1, 2, 10, 63, 64, 65, 100, 300, 1000] } else { &[0, 1, 2, 10, 63, 64, 65, 100, 300] };
         for &max in &MAXIMA {
             for &n in sizes {
-                for shape in SHAPES {
+                for (si, shape) in SHAPES.iter().enumerate() {
                     let mut r = next_rng(o.seed);
+                    // quick tier: the largest size only for every other shape (alternating with the maximum)
+                    if !o.thorough && n >= 300 && (si + max as usize) % 2 == 0 {
+                        continue;
+                    }
                     emit(gen_radix(&mut r, n, max, shape), &mut w, &mut st, n >= 1000);
                 }
             }
@@ -679,10 +683,11 @@ pub fn run(o: &Opts) -> i32 {
                 }
             }
         }
-        for kind in ["gapped", "runs", "clusters"] {
+        let big_kinds: &[&str] = if o.thorough { &["gapped", "runs", "clusters"] } else { &["runs", "clusters"] };
+        for kind in big_kinds {
             let mut r = next_rng(o.seed);
             let s = gen_slice(&mut r, 5000, kind);
-            let q = gen_queries(&mut r, &s, 0, if o.thorough { 40 } else { 8 });
+            let q = gen_queries(&mut r, &s, 0, if o.thorough { 40 } else { 6 });
             emit(Case::Scan { slice: s.clone(), queries: q.clone(), tag: format!("{kind}-big") }, &mut w, &mut st, true);
             emit(Case::Bsf { slice: s, queries: q, tag: format!("{kind}-big") }, &mut w, &mut st, true);
         }
